@@ -549,16 +549,26 @@ func ghost_buildStmts_chainsDone(stmts []InjectorStmt) { gChains = len(stmts) }
 
 // --- invariants ------------------------------------------------------------------------------------------
 
-// threadsOK: what is known about the pools handled so far (n = number of pools whose ghost entries are initialised).
-func threadsOK(pools [][]*node, visited []bool, stmts, parentStmts []InjectorStmt, n int) bool {
-	return len(visited) == len(pools) &&
-		vs.Forall(n, func(p int) bool {
-			return (gChainOfPool[p] == -1 || gMainStart[p] == -1) &&
-				vs.Implies(!visited[p], gChainOfPool[p] == -1 && gMainStart[p] == -1 && len(pools[p]) > 0) &&
-				(gChainOfPool[p] == -1 || (0 <= gChainOfPool[p] && gChainOfPool[p] < len(stmts) && isChainOfPool(stmts[gChainOfPool[p]], pools[p]))) &&
-				(gMainStart[p] == -1 || segmentOfPool(parentStmts, gMainStart[p], pools[p]))
-		}) &&
-		vs.Forall(len(stmts), func(k int) bool { return vs.TypeIs[*InjectorChainStmt](stmts[k]) }) &&
+// What is known about the pools handled so far, clause by clause (separate invariants keep each query small).
+func threadsBookkeeping(pools [][]*node, visited []bool) bool {
+	return len(visited) == len(pools) && vs.Forall(len(pools), func(p int) bool {
+		return (gChainOfPool[p] == -1 || gMainStart[p] == -1) &&
+			vs.Implies(!visited[p], gChainOfPool[p] == -1 && gMainStart[p] == -1 && len(pools[p]) > 0)
+	})
+}
+
+func threadsChains(pools [][]*node, stmts []InjectorStmt) bool {
+	return vs.Forall(len(pools), func(p int) bool {
+		return gChainOfPool[p] == -1 || (0 <= gChainOfPool[p] && gChainOfPool[p] < len(stmts) && isChainOfPool(stmts[gChainOfPool[p]], pools[p]))
+	})
+}
+
+func threadsSegments(pools [][]*node, parentStmts []InjectorStmt) bool {
+	return vs.Forall(len(pools), func(p int) bool { return gMainStart[p] == -1 || segmentOfPool(parentStmts, gMainStart[p], pools[p]) })
+}
+
+func threadsKinds(stmts, parentStmts []InjectorStmt) bool {
+	return vs.Forall(len(stmts), func(k int) bool { return vs.TypeIs[*InjectorChainStmt](stmts[k]) }) &&
 		vs.Forall(len(parentStmts), func(k int) bool { return !vs.TypeIs[*InjectorChainStmt](parentStmts[k]) })
 }
 
@@ -580,6 +590,10 @@ func poolIdxsOK(pools [][]*node, idxs []int) bool {
 	return vs.Forall(len(idxs), func(k int) bool { return 0 <= idxs[k] && idxs[k] < len(pools) && len(pools[idxs[k]]) > 0 })
 }
 
+// buildStmts only moves statements around: what "image of a node" and "ready" mean is irrelevant to its proof.
+//
+//kvc:opaque (*Graph).buildStmts stmtOfNode
+//kvc:split (*Graph).buildStmts
 //kvc:contract (*Graph).buildStmts
 func contract_Graph_buildStmts(g *Graph, pools [][]*node, nodeProvidedNodes map[*node]map[*node]struct{}, initialProvidedNodes map[*node]struct{}) (stmts []InjectorStmt, err error) {
 	vs.Requires(g != nil && poolsPlanned(pools) && poolsReady(pools) && initialProvidedNodes != nil && vs.Implies(gNoFallible, noFallibleIn(pools)))
@@ -637,7 +651,10 @@ func inv_buildStmts_proc2(processedNodes map[*node]struct{}) {
 
 //kvc:loop (*Graph).buildStmts "for _, poolIdx := range initialPoolIdxs { if visited[poolIdx]"
 func inv_buildStmts_chains(pools [][]*node, visited []bool, stmts, parentStmts []InjectorStmt, initialPoolIdxs []int, processedNodes map[*node]struct{}) {
-	vs.Invariant("threads", threadsOK(pools, visited, stmts, parentStmts, len(pools)))
+	vs.Invariant("threads_bookkeeping", threadsBookkeeping(pools, visited))
+	vs.Invariant("threads_goroutines", threadsChains(pools, stmts))
+	vs.Invariant("threads_own_flow", threadsSegments(pools, parentStmts))
+	vs.Invariant("threads_kinds", threadsKinds(stmts, parentStmts))
 	vs.Invariant("idxs", poolIdxsOK(pools, initialPoolIdxs) && processedNodes != nil)
 	vs.Invariant("emission", emissionOK(pools, stmts, parentStmts))
 	vs.Invariant("fallible", fallibleOK(pools, parentStmts))
@@ -650,14 +667,20 @@ func inv_buildStmts_proc3(processedNodes map[*node]struct{}) {
 
 //kvc:loop (*Graph).buildStmts "for { newPoolProcessed := false"
 func inv_buildStmts_fix(pools [][]*node, visited []bool, stmts, parentStmts []InjectorStmt, processedNodes map[*node]struct{}) {
-	vs.Invariant("threads", threadsOK(pools, visited, stmts, parentStmts, len(pools)) && processedNodes != nil)
+	vs.Invariant("threads_bookkeeping", threadsBookkeeping(pools, visited) && processedNodes != nil)
+	vs.Invariant("threads_goroutines", threadsChains(pools, stmts))
+	vs.Invariant("threads_own_flow", threadsSegments(pools, parentStmts))
+	vs.Invariant("threads_kinds", threadsKinds(stmts, parentStmts))
 	vs.Invariant("emission", emissionOK(pools, stmts, parentStmts))
 	vs.Invariant("fallible", fallibleOK(pools, parentStmts))
 }
 
 //kvc:loop (*Graph).buildStmts "for poolIdx, pool := range pools { if visited[poolIdx] || len(pool) == 0"
 func inv_buildStmts_fixInner(pools [][]*node, visited []bool, stmts, parentStmts []InjectorStmt, processedNodes map[*node]struct{}) {
-	vs.Invariant("threads", threadsOK(pools, visited, stmts, parentStmts, len(pools)) && processedNodes != nil)
+	vs.Invariant("threads_bookkeeping", threadsBookkeeping(pools, visited) && processedNodes != nil)
+	vs.Invariant("threads_goroutines", threadsChains(pools, stmts))
+	vs.Invariant("threads_own_flow", threadsSegments(pools, parentStmts))
+	vs.Invariant("threads_kinds", threadsKinds(stmts, parentStmts))
 	vs.Invariant("emission", emissionOK(pools, stmts, parentStmts))
 	vs.Invariant("fallible", fallibleOK(pools, parentStmts))
 }
@@ -682,12 +705,15 @@ func ghost_buildStmts_mainAppended(pools [][]*node, pool []*node, poolIdx int, p
 	vs.Assert("hint_older_segments_kept", vs.Forall(len(pools), func(p int) bool {
 		return p == poolIdx || gMainStart[p] == -1 || segmentOfPool(parentStmts, gMainStart[p], pools[p])
 	}))
+	vs.Assert("hint_all_segments", threadsSegments(pools, parentStmts))
 	vs.Assert("hint_own_flow_ready", vs.Forall(len(parentStmts), func(k int) bool { return threadStmtReady(parentStmts[k]) }))
 	vs.Assert("hint_own_flow_fallible", fallibleOK(pools, parentStmts))
 }
 
 //kvc:ghost (*Graph).buildStmts after "stmts = append(stmts, &InjectorChainStmt{"
-func ghost_buildStmts_chainReady(pools [][]*node, stmts []InjectorStmt) {
+func ghost_buildStmts_chainReady(pools [][]*node, stmts, parentStmts []InjectorStmt) {
+	vs.Assert("hint_segments_untouched", threadsSegments(pools, parentStmts))
+	vs.Assert("hint_all_goroutines", threadsChains(pools, stmts))
 	vs.Assert("hint_new_goroutine_ready", topStmtReady(stmts[len(stmts)-1]))
 }
 
@@ -766,4 +792,10 @@ func ghost_Build_afterCtx(g *Graph, injector *Injector, metaData *MetaData) {
 		return vs.Forall(len(topoOrder(g)[j].returnValues), func(k int) bool { return importsNonNil(topoOrder(g)[j].returnValues[k].ReferencedImports) })
 	}))
 	vs.Assert("hint_values_still_ready", vs.Forall(len(topoOrder(g)), func(j int) bool { return valuesReady(topoOrder(g)[j], metaData) }))
+}
+
+//kvc:ghost (*Graph).buildStmts after "for _, n := range pool {"
+func ghost_buildStmts_afterProcessed(pools [][]*node, stmts, parentStmts []InjectorStmt) {
+	vs.Assert("hint_segments_after_bookkeeping", threadsSegments(pools, parentStmts))
+	vs.Assert("hint_goroutines_after_bookkeeping", threadsChains(pools, stmts))
 }
